@@ -397,6 +397,11 @@ func baselineCmd(args []string) int {
 		if f.Err != "" {
 			fmt.Printf("function not verified: %s: %s\n", vc.ShortName(f.Func), f.Err)
 		}
+		for lbl, msg := range f.ClauseErrs {
+			if labelServes(lbl, *prop) {
+				fmt.Printf("clause not verified: %s %s: %s\n", vc.ShortName(f.Func), lbl, msg)
+			}
+		}
 	}
 	data, _ := json.MarshalIndent(b, "", " ")
 	os.MkdirAll(filepath.Join(verifDir(), "baseline"), 0o755)
@@ -564,6 +569,12 @@ func checkCmd(args []string) int {
 					reason = f.Err
 				} else if f.CapHit {
 					reason = "cap"
+				} else {
+					for lbl, msg := range f.ClauseErrs {
+						if strings.Contains(n, "/"+lbl+"/") {
+							reason = "clause not interpretable on this code (" + msg + ")"
+						}
+					}
 				}
 			}
 		}
